@@ -4,6 +4,10 @@ kinds:  'sswitch'    a REAL SimplePacketSwitch (FlowDemux over n Ports)
         'fswitch'    a REAL FairPacketSwitch (FIBDemux over n branches `egress Port(rate 0) >> SP | WFQ | VirtualClock | DRR`) with a
                      non-identity flow2class (several flows per class); demux.fib (and sometimes demux.ends) set afterwards, as
                      applications do; tables with unknown flows and ports without an output
+        'fswitch2'   TWO FairPacketSwitches alive in one Environment, each with its own traffic; an end device is registered on the second
+                     only (by item assignment on demux.ends, the idiom of tests/apps/fattree.py) for a flow that the first switch must
+                     carry through its port and scheduler; each instance is replayed against its own model, and no packet put into
+                     one instance may show up at a part of the other (instances-interfere)
         'flowdemux'  a REAL FlowDemux over Ports, with or without a default output
         'fibdemux'   a REAL FIBDemux over Ports with table / default output / end devices
         'nsplitter'  a REAL NSplitter(N) with a Port behind every output: EVERY output receives EVERY packet exactly once (output 0 the
@@ -28,7 +32,7 @@ from fractions import Fraction
 from vlib import coqfmt as cf
 from props import elem_common as ec
 from props import part_port
-from props.part_gensink import PART as GS, PipeHarness, HandTap, LastTap, _first_component
+from props.part_gensink import PART as GS, PipeHarness, HandTap, LastTap, _first_component, hand_extra
 
 F = Fraction
 SIZES = (64, 128, 256, 512)
@@ -63,7 +67,7 @@ def rule_fibdemux(nouts, fib, ends, default, flow):
 
 class RoutePart:
     name = "route"
-    kinds = ["sswitch", "fswitch", "flowdemux", "fibdemux", "nsplitter", "hub"]
+    kinds = ["sswitch", "fswitch", "fswitch2", "flowdemux", "fibdemux", "nsplitter", "hub"]
     serves = ["C08"]
     weight = 2
     props_files = {"C08": ["Props/C08_Route.v"]}
@@ -96,10 +100,12 @@ class RoutePart:
     # ---- generation ------------------------------------------------------------------------------------------------
     def gen_case(self, rng, tier, prop_id):
         r = rng.random()
-        if r < 0.27:
+        if r < 0.25:
             return self._gen_sswitch(rng)
-        if r < 0.62:
+        if r < 0.52:
             return self._gen_fswitch(rng)
+        if r < 0.62:
+            return self._gen_fswitch2(rng)
         if r < 0.82:
             return self._gen_demux(rng, "flowdemux" if r < 0.7 else "fibdemux")
         return self._gen_cast(rng, "nsplitter" if r < 0.91 else "hub")
@@ -154,6 +160,26 @@ class RoutePart:
                 "buffer": rng.choice([None, None, 1, 2, 3]), "server": server, "weights": {str(c): v for c, v in weights.items()},
                 "f2c": {str(f): c for f, c in f2c.items()}, "fib": {str(f): q for f, q in fib.items()},
                 "ends": {str(f): d for f, d in ends.items()}, "workload": w, "pre": rng.random() < 0.3}
+
+    def _gen_fswitch2(self, rng):
+        a = self._gen_fswitch(rng)
+        b = self._gen_fswitch(rng)
+        a["ends"] = {}
+        # the flow whose end device is registered on B only must cross A through a port and its scheduler
+        present = sorted({sp["flow"] for sp in a["workload"]["packets"].values()})
+        f = rng.choice(present)
+        n = a["nports"]
+        if not (str(f) in a["fib"] and 0 <= a["fib"][str(f)] < n):
+            a["fib"][str(f)] = rng.randrange(n)
+        b["ends"] = {str(f): 0}
+        off = 100
+        wb = b["workload"]
+        wb["packets"] = {str(int(u) + off): sp for u, sp in wb["packets"].items()}
+        for d in wb["drivers"]:
+            d["bursts"] = [[t, [u + off for u in uids]] for (t, uids) in d["bursts"]]
+        for c in (a, b):
+            c["pre"] = False
+        return {"kind": "fswitch2", "insts": [a, b], "pre": rng.random() < 0.3}
 
     def _gen_demux(self, rng, kind):
         n = rng.choice([2, 2, 3])
@@ -319,117 +345,171 @@ class RoutePart:
         return smp
 
     def run_impl(self, case):
+        if case["kind"] == "fswitch2":
+            obs, interfere = self._run_many(case["insts"], case.get("pre"))
+            return {"multi": obs, "interfere": interfere, "raised": obs[0]["raised"], "exhausted": obs[0]["exhausted"]}
+        return self._run_many([case], case.get("pre"))[0][0]
+
+    def _build(self, case, env, h, base, stages, slots, dm):
+        """construct the real objects of one instance; -> (top, demux, objs) with objs[j] the real object of local stage j"""
+        from onl.netdev.port import Port
+        n = len(stages)
+        objs = [None] * n
+        k = case["kind"]
+        if k == "sswitch":
+            from onl.netdev.switch import SimplePacketSwitch
+            top = SimplePacketSwitch(env, case["nports"], case["rate"], case["buffer"], "sw")
+            demux = top.demux
+            for i, p in enumerate(top.ports):
+                objs[1 + i] = p
+        elif k == "fswitch":
+            from onl.netdev.switch import FairPacketSwitch
+            tbl = {int(f): c for f, c in case["f2c"].items()}
+            wts = {int(c): (v if case["server"] != "VirtualClock" else ec.T(v)) for c, v in case["weights"].items()}
+            top = FairPacketSwitch(env, case["nports"], case["rate"], case["buffer"], wts, case["server"], "fs",
+                                   flow2class=lambda f: tbl[f])
+            demux = top.demux
+            demux.fib = dict(dm["fib"])
+            for i in range(case["nports"]):
+                objs[1 + 2 * i] = top.egress_ports[i]
+                objs[2 + 2 * i] = top.ports[i]
+            if dm["ends"]:
+                devs = []
+                for j in range(1 + 2 * case["nports"], n):
+                    objs[j] = Port(env, 0, None, False, stages[j]["eid"])
+                    devs.append(objs[j])
+                # the registration idiom of applications (tests/apps/fattree.py): item assignment on the demux the switch built
+                for f, d in dm["ends"].items():
+                    demux.ends[f] = devs[d]
+        elif k in ("nsplitter", "hub"):
+            for j in range(1, n):
+                st = stages[j]
+                objs[j] = Port(env, st["rate"], st["qlimit"], st["limit_bytes"], st["eid"])
+            if k == "nsplitter":
+                from onl.netdev.splitter import NSplitter
+                top = NSplitter(n - 1)
+                for i in range(n - 1):
+                    top.outs[i] = objs[1 + i]
+            else:
+                from onl.netdev.hub import Hub
+                eps = []
+                for i in range(n - 1):
+                    ep = LastTap(h, "s%d" % (base + 1 + i))
+                    ep.element_id = "ep%d" % i
+                    eps.append(ep)
+                top = Hub(env, endpoints=eps, ports=[objs[1 + i] for i in range(n - 1)])
+            demux = top
+        else:
+            from onl.netdev.demux import FlowDemux, FIBDemux
+            for j in range(1, n):
+                st = stages[j]
+                objs[j] = Port(env, st["rate"], st["qlimit"], st["limit_bytes"], st["eid"])
+            outs = [objs[s[0]] for s in slots[:dm["nouts"]]]
+            dflt = objs[slots[dm["nouts"]][0]] if dm["default"] else None
+            if k == "flowdemux":
+                demux = FlowDemux(outs, dflt)
+            else:
+                # built WITHOUT `ends`; end devices are registered afterwards by item assignment, as applications do
+                demux = FIBDemux(outs=outs, fib=dict(dm["fib"]), default_out=dflt)
+                base_slot = dm["nouts"] + 1
+                for f, d in dm["ends"].items():
+                    demux.ends[f] = objs[slots[base_slot + d][0]]
+            top = demux
+        objs[0] = demux
+        return top, demux, objs
+
+    def _run_many(self, cases, pre):
+        """one or several instances in ONE Environment; -> ([one observation per instance, in that instance's own stage numbering],
+        interference notes)"""
         import io
         import contextlib
+        import signal
+        import time
         from onl.sim import Environment
-        from onl.netdev.port import Port
         env = Environment()
         h = PipeHarness(env)
-        w = case["workload"]
-        h.add_packets(w["packets"])
-        stages, slots, dm = self.layout(case)
-        n = len(stages)
+        lay = [self.layout(c) for c in cases]
+        bases, tot = [], 0
+        for (stages, _, _) in lay:
+            bases.append(tot)
+            tot += len(stages)
+        owner = {}
+        for i, c in enumerate(cases):
+            h.add_packets(c["workload"]["packets"])
+            for u in c["workload"]["packets"]:
+                owner[int(u)] = i
+        tops = [None] * len(cases)
+
+        class Lazy:
+            def __init__(self, i):
+                self.i = i
+
+            def put(self, p):
+                return tops[self.i].put(p)
+
+        def drivers():
+            for i, c in enumerate(cases):
+                for d in c["workload"]["drivers"]:
+                    h.add_driver(d["bursts"], late=d["late"], target=Lazy(i))
         buf = io.StringIO()
-        objs = [None] * n
+        gobjs = [None] * tot
+        gstages = [None] * tot
         with contextlib.redirect_stdout(buf):
-            if case.get("pre"):
-                for d in w["drivers"]:
-                    h.add_driver(d["bursts"], late=d["late"])
-            k = case["kind"]
-            if k == "sswitch":
-                from onl.netdev.switch import SimplePacketSwitch
-                top = SimplePacketSwitch(env, case["nports"], case["rate"], case["buffer"], "sw")
-                demux = top.demux
-                for i, p in enumerate(top.ports):
-                    objs[1 + i] = p
-            elif k == "fswitch":
-                from onl.netdev.switch import FairPacketSwitch
-                tbl = {int(f): c for f, c in case["f2c"].items()}
-                wts = {int(c): (v if case["server"] != "VirtualClock" else ec.T(v)) for c, v in case["weights"].items()}
-                top = FairPacketSwitch(env, case["nports"], case["rate"], case["buffer"], wts, case["server"], "fs",
-                                       flow2class=lambda f: tbl[f])
-                demux = top.demux
-                demux.fib = dict(dm["fib"])
-                for i in range(case["nports"]):
-                    objs[1 + 2 * i] = top.egress_ports[i]
-                    objs[2 + 2 * i] = top.ports[i]
-                if dm["ends"]:
-                    devs = []
-                    for j in range(1 + 2 * case["nports"], n):
-                        objs[j] = Port(env, 0, None, False, stages[j]["eid"])
-                        devs.append(objs[j])
-                    demux.ends = {f: devs[d] for f, d in dm["ends"].items()}
-            elif k in ("nsplitter", "hub"):
-                for j in range(1, n):
-                    st = stages[j]
-                    objs[j] = Port(env, st["rate"], st["qlimit"], st["limit_bytes"], st["eid"])
-                if k == "nsplitter":
-                    from onl.netdev.splitter import NSplitter
-                    top = NSplitter(n - 1)
-                    for i in range(n - 1):
-                        top.outs[i] = objs[1 + i]
-                else:
-                    from onl.netdev.hub import Hub
-                    eps = []
-                    for i in range(n - 1):
-                        ep = LastTap(h, "s%d" % (1 + i))
-                        ep.element_id = "ep%d" % i
-                        eps.append(ep)
-                    top = Hub(env, endpoints=eps, ports=[objs[1 + i] for i in range(n - 1)])
-                demux = top
-            else:
-                from onl.netdev.demux import FlowDemux, FIBDemux
-                for j in range(1, n):
-                    st = stages[j]
-                    objs[j] = Port(env, st["rate"], st["qlimit"], st["limit_bytes"], st["eid"])
-                outs = [objs[s[0]] for s in slots[:dm["nouts"]]]
-                dflt = objs[slots[dm["nouts"]][0]] if dm["default"] else None
-                if k == "flowdemux":
-                    demux = FlowDemux(outs, dflt)
-                else:
-                    base = dm["nouts"] + 1
-                    demux = FIBDemux(outs=outs, ends={f: objs[slots[base + d][0]] for f, d in dm["ends"].items()},
-                                     fib=dict(dm["fib"]), default_out=dflt)
-                top = demux
-            objs[0] = demux
-            samplers = [(lambda: None)] * n
-            for j in range(1, n):
-                if objs[j] is not None:
-                    samplers[j] = self.instrument(h, j, stages[j], objs[j])
-            where = {id(o): j for j, o in enumerate(objs) if o is not None}
+            if pre:
+                drivers()
+            demuxes = []
+            for i, c in enumerate(cases):
+                stages, slots, dm = lay[i]
+                top, demux, objs = self._build(c, env, h, bases[i], stages, slots, dm)
+                tops[i] = top
+                demuxes.append(demux)
+                for j, o in enumerate(objs):
+                    gobjs[bases[i] + j] = o
+                    gstages[bases[i] + j] = stages[j]
+            samplers = [(lambda: None)] * tot
+            for g in range(tot):
+                if gobjs[g] is not None and g not in bases:
+                    samplers[g] = self.instrument(h, g, gstages[g], gobjs[g])
+            where = {id(o): g for g, o in enumerate(gobjs) if o is not None}
 
             def tap(src, nxt):
-                """a pass-through tap in front of whatever real object `nxt` is (found by identity among the parts of the switch)"""
+                """a pass-through tap in front of whatever real object `nxt` is (found by identity among the parts of all instances)"""
                 if nxt is None:
                     return None
-                j = where.get(id(nxt), -1)
-                return HandTap(h, src, nxt, samplers[j] if j >= 0 else (lambda: None), dst=j)
-            if getattr(demux, "outs", None) is not None:
-                demux.outs = [tap(0, o) for o in demux.outs]
-            if getattr(demux, "default_out", None) is not None:
-                demux.default_out = tap(0, demux.default_out)
-            if getattr(demux, "ends", None):
-                demux.ends = {f: tap(0, o) for f, o in demux.ends.items()}
-            for j in range(1, n):
-                o = objs[j]
-                if o is None:
+                g = where.get(id(nxt), -1)
+                return HandTap(h, src, nxt, samplers[g] if g >= 0 else (lambda: None), dst=g, extra=extra_of(src))
+            wrapped = set()
+
+            def extra_of(g):
+                return hand_extra(gstages[g], gobjs[g], samplers[g]) if g not in bases else None
+            for i, demux in enumerate(demuxes):
+                b = bases[i]
+                if getattr(demux, "outs", None) is not None:
+                    demux.outs = [tap(b, o) for o in demux.outs]
+                if getattr(demux, "default_out", None) is not None:
+                    demux.default_out = tap(b, demux.default_out)
+                ends = getattr(demux, "ends", None)
+                if ends and id(ends) not in wrapped:
+                    wrapped.add(id(ends))
+                    for f in list(ends):                # in place: the dict object the demux was built with stays the same
+                        ends[f] = tap(b, ends[f])
+            for g in range(tot):
+                o = gobjs[g]
+                if o is None or g in bases:
                     continue
                 nxt = getattr(o, "out", None)
                 if isinstance(nxt, ec.Tap):
                     continue                            # already an endpoint recorder (Hub: port.out = endpoint)
                 if nxt is not None:
-                    o.out = tap(j, nxt)                 # a hand-over inside the switch (egress port -> its scheduler)
+                    o.out = tap(g, nxt)                 # a hand-over inside the switch (egress port -> its scheduler)
                 else:
-                    o.out = LastTap(h, "s%d" % j)       # an output of the switch: its own sink
-            h.attach(top)
+                    o.out = LastTap(h, "s%d" % g, extra=extra_of(g))       # an output of the switch: its own sink
+            h.attach(tops[0])
             h.after_action(lambda: [f() for f in samplers])
-            if not case.get("pre"):
-                for d in w["drivers"]:
-                    h.add_driver(d["bursts"], late=d["late"])
-            # a scheduler whose run() loops without yielding never comes back from env.step(): bound the run ourselves
-            import signal
-            import time
+            if not pre:
+                drivers()
 
+            # a scheduler whose run() loops without yielding never comes back from env.step(): bound the run ourselves
             def _hang(signum, frame):
                 raise RuntimeError("a process of the switch loops without yielding")
             old_h = signal.signal(signal.SIGALRM, _hang)
@@ -445,19 +525,72 @@ class RoutePart:
                 left = max(old_t[0] - (time.time() - t_start), 0.05) if old_t[0] else 0
                 signal.signal(signal.SIGALRM, old_h)
                 signal.setitimer(signal.ITIMER_REAL, left, 1.0 if left else 0)
-        final = []
-        for j, st in enumerate(stages):
-            o = objs[j]
-            if j == 0:
-                final.append({"received": getattr(o, "packets_recevied", None)})
-            elif st["el"] == "port":
-                final.append({"received": o.packets_received, "dropped": o.packets_dropped, "store": len(o.store.items)})
-            elif st["el"] == "drr":
-                final.append({"received": o.packets_received, "total": o.total_packets,
-                              "quantum": [[c, ec.qs(o.quantum[c])] for c, _ in st["weights"] if c in o.quantum]})
+        # ---- the global log per instance, in the instance's own stage numbering ----
+        def inst_of(g):
+            for i in reversed(range(len(cases))):
+                if g >= bases[i]:
+                    return i
+            return 0
+        logs = [[] for _ in cases]
+        interfere = []
+
+        def local_outs(i, outs, what):
+            res = []
+            b, n = bases[i], len(lay[i][0])
+            for o in outs:
+                o = list(o)
+                if o[0] == "out":
+                    g = int(o[1][1:])
+                    if not (b <= g < b + n):
+                        interfere.append(f"instances-interfere: during {what} of instance {i} packet {o[2]} left stage {g - bases[inst_of(g)]} of instance {inst_of(g)}")
+                        continue
+                    o[1] = "s%d" % (g - b)
+                elif o[0] == "hand":
+                    g = o[1]
+                    if g < 0 or not (b <= g < b + n):
+                        interfere.append(f"instances-interfere: during {what} of instance {i} packet {o[2]} was handed to "
+                                         + (f"stage {g - bases[inst_of(g)]} of instance {inst_of(g)}" if g >= 0 else "an object that is no part of it"))
+                        o[1] = -1
+                    else:
+                        o[1] = g - b
+                    if isinstance(o[4], list) and len(o) > 4:
+                        pass
+                res.append(o)
+            return res
+        for e in log:
+            k, samples = e[0], e[-1]
+            if k == "adv":
+                for i in range(len(cases)):
+                    logs[i].append(["adv", e[1], samples[bases[i]:bases[i] + len(lay[i][0])]])
+            elif k == "put":
+                i = owner[e[1]]
+                logs[i].append(["put", e[1], local_outs(i, e[2], "a put into the switch"), samples[bases[i]:bases[i] + len(lay[i][0])]])
+            elif k in ("step", "raise"):
+                gs = set(int(x) for x in re.findall(r"@(\d+)", e[1][1])) if e[1] else set()
+                i = inst_of(min(gs)) if gs else 0
+                lab = [e[1][0], re.sub(r"@(\d+)", lambda m: "@%d" % (int(m.group(1)) - bases[i]), e[1][1])] if e[1] else e[1]
+                entry = [k, lab, local_outs(i, e[2], "a kernel step")] + ([e[3]] if k == "raise" else []) + \
+                        [samples[bases[i]:bases[i] + len(lay[i][0])]]
+                logs[i].append(entry)
             else:
-                final.append({"received": o.packets_received, "total": o.total_packets})
-        return {"log": log, "raised": h.raised, "exhausted": h.exhausted, "final": final}
+                logs[0].append(e)
+        out = []
+        for i, c in enumerate(cases):
+            stages = lay[i][0]
+            final = []
+            for j, st in enumerate(stages):
+                o = gobjs[bases[i] + j]
+                if j == 0:
+                    final.append({"received": getattr(o, "packets_recevied", None)})
+                elif st["el"] == "port":
+                    final.append({"received": o.packets_received, "dropped": o.packets_dropped, "store": len(o.store.items)})
+                elif st["el"] == "drr":
+                    final.append({"received": o.packets_received, "total": o.total_packets,
+                                  "quantum": [[cc, ec.qs(o.quantum[cc])] for cc, _ in st["weights"] if cc in o.quantum]})
+                else:
+                    final.append({"received": o.packets_received, "total": o.total_packets})
+            out.append({"log": logs[i], "raised": h.raised, "exhausted": h.exhausted, "final": final})
+        return out, interfere[:3]
 
     # ---- log -> Coq ----------------------------------------------------------------------------------------------------------
     def _view(self, case):
@@ -516,6 +649,9 @@ class RoutePart:
 
     def _terms(self, case, obs):
         view, stages, slots, dm = self._view(case)
+        for e in obs["log"]:
+            if e[0] in ("put", "step") and any(o[0] == "hand" and o[1] < 0 for o in e[2]):
+                return None, None, "a packet was handed to an object that is no part of this switch"
         sub, sched, err = GS._pipe_split(view, obs)
         if sub is None:
             return None, None, err
@@ -528,6 +664,9 @@ class RoutePart:
             sc = self._subcase(view, st)
             part = parts[st["el"]]
             o = {"log": sub[k], "raised": None, "exhausted": obs["exhausted"]}
+            if st["el"] in ("sp", "rr", "wrr", "wfq", "vc", "port"):
+                # part_mq / part_wfq read a 6th field of an output as "the counters the next hop read at the hand-off"; ours is the colour
+                o["log"] = [([e[0], e[1], [x[:5] for x in e[2]]] + e[3:]) if e[0] in ("put", "step") else e for e in sub[k]]
             if st["el"] == "drr":
                 from props import part_drr
                 o["quantum"] = obs["final"][k]["quantum"]
@@ -588,6 +727,10 @@ class RoutePart:
         return stage_terms, comp, (view, slots, dm)
 
     def agree_term(self, case, obs):
+        if case["kind"] == "fswitch2":
+            if obs["interfere"]:
+                return "false (* instances interfere *)"
+            return "(" + ") && (".join(self.agree_term(c, o) for c, o in zip(case["insts"], obs["multi"])) + ")"
         if obs["raised"]:
             return "false"
         stage_terms, comp, x = self._terms(case, obs)
@@ -598,6 +741,8 @@ class RoutePart:
         return " && ".join(stage_terms) + f" && pipe_agree {self._E(case, view, slots, dm)} {cf.lst(comp, sep=nl)}"
 
     def model_term(self, case):
+        if case["kind"] == "fswitch2":
+            return None
         try:
             obs = self.run_impl(case)
         except Exception:
@@ -640,6 +785,11 @@ class RoutePart:
     def monitor(self, case, obs, prop_id):
         if obs.get("raised"):
             return [f"route-raises: {obs['raised']}"]
+        if case["kind"] == "fswitch2":
+            msgs = list(obs["interfere"])
+            for i, (c, o) in enumerate(zip(case["insts"], obs["multi"])):
+                msgs += [m.replace(": ", f": [instance {i}] ", 1) for m in self.monitor(c, o, prop_id)]
+            return msgs[:4]
         stages, slots, dm, specs, injected, handed, crossed, entered, stray = self._walk(case, obs)
         msgs = []
         n = len(stages)
@@ -737,6 +887,8 @@ class RoutePart:
     def nontrivial(self, case, obs, prop_id):
         if obs.get("raised"):
             return False
+        if case["kind"] == "fswitch2":
+            return all(self.nontrivial(c, o, prop_id) for c, o in zip(case["insts"], obs["multi"]))
         stages, slots, dm, specs, injected, handed, crossed, entered, stray = self._walk(case, obs)
         sinks = {s[-1] for s in slots if s}
         deliv = sum(len(crossed[k]) for k in sinks)
@@ -747,6 +899,12 @@ class RoutePart:
         return len(injected) >= 3 and deliv >= 1 and fates >= 2
 
     def shrink(self, case):
+        if case["kind"] == "fswitch2":
+            for i, c in enumerate(case["insts"]):
+                for c2 in self.shrink(c):
+                    if c2["workload"]["packets"] and not (i == 1 and not c2["ends"]):
+                        yield {**case, "insts": case["insts"][:i] + [c2] + case["insts"][i + 1:]}
+            return
         for w in ec.shrink_workload(case["workload"]):
             if w["packets"]:
                 yield {**case, "workload": w}
@@ -760,6 +918,8 @@ class RoutePart:
             yield {**case, "buffers": [None] * len(case["buffers"])}
 
     def describe(self, case, obs):
+        if case["kind"] == "fswitch2":
+            return ["route:fswitch2", "fswitch2:servers=" + "+".join(c["server"] for c in case["insts"])]
         k = case["kind"]
         keys = ["route:" + k, "route:packets=%d" % min(len(case["workload"]["packets"]), 10)]
         if k == "fswitch":
